@@ -1,3 +1,128 @@
-(* C20 - stub, replaced below *)
-From GV Require Import Base.Prelude Types.SchemaValidate.
-Example C20_example_stub : chk true KCrash = []. Proof. reflexivity. Qed.
+(* C20 - schema validation reports every type-system violation and never crashes.
+   Theorems only; proofs live in Types/SchemaValidateProps.v.  The model is
+   Types/SchemaValidate.validate : raw_schema -> list rule_kind over raw schemas whose references
+   may resolve to a type of any kind.  The tie to /repo is the correspondence run of harness/c20.py;
+   the "errors-only response" clause of the property is checked there, it has no Coq counterpart. *)
+From GV Require Import Base.Prelude Types.SchemaValidate Types.SchemaValidateProps.
+
+(* The place where validate.py reaches assert_leaf_type (pseudo kind KCrash) is never reached, and
+   neither cycle detector runs out of fuel, for every raw schema - ill-kinded ones included. *)
+Theorem C20_never_crashes : forall rs,
+  ~ In KCrash (validate rs) /\ ~ In KOutOfFuel (validate rs).
+Proof. exact validate_never_crashes. Qed.
+Print Assumptions C20_never_crashes.
+
+(* The guard that makes the previous theorem true: default-value validation started at a declared
+   input type never meets a type that is neither wrapper, input object, scalar nor enum (nested input
+   fields of a non-input type are skipped, their position error is reported by the field rule). *)
+Theorem C20_default_validation_guarded : forall rs v t,
+  is_input_tref rs t = true -> lit_check rs v t <> RAssert.
+Proof. exact lit_check_no_assert. Qed.
+Print Assumptions C20_default_validation_guarded.
+
+(* The error list is empty exactly for the schemas satisfying the declarative rule set ValidSchema
+   (stated in SchemaValidateProps.v without reference to the checker's control flow): root types
+   (query present, all object types, pairwise distinct), reserved names, directive locations,
+   input/output type positions, required-and-deprecated, valid defaults (inductive relation
+   LitValid), interface implementation (only interfaces, not itself, once, transitive interfaces,
+   every field present and covariant - inductive relation Subtype -, every argument present and
+   invariant, extra arguments optional, deprecation), union members (objects, once), non-empty
+   types, OneOf restrictions, and acyclicity of the non-null and of the default-value reference
+   graphs (no node reaches itself). *)
+Theorem C20_reflects : forall rs, validate rs = [] <-> ValidSchema rs.
+Proof. exact validate_reflects. Qed.
+Print Assumptions C20_reflects.
+
+(* is_type_sub_type_of decides the covariance relation of the specification. *)
+Theorem C20_covariance_spec : forall rs sub sup, subtype rs sub sup = true <-> Subtype rs sub sup.
+Proof. exact subtype_reflect. Qed.
+Print Assumptions C20_covariance_spec.
+
+(* default-value validation accepts exactly the values valid for the type (null, list and
+   single-item coercion, built-in scalar ranges, enum names, input objects: known fields only,
+   required fields present, OneOf exactly one non-null field). *)
+Theorem C20_valid_default_spec : forall rs v t, lit_check rs v t = RValid <-> LitValid rs v t.
+Proof. exact lit_check_reflect. Qed.
+Print Assumptions C20_valid_default_spec.
+
+(* Both detectors terminate with fuel = number of named types, resp. number of input fields. *)
+Theorem C20_cycle_detectors_terminate : forall rs,
+  (exists st, dfs_all N N.eqb (nn_succ rs) (length (s_types rs)) (input_object_names rs) dstate0 = Some st)
+  /\ (exists st, dfs_all fnode fnode_eqb (dv_succ rs) (length (all_input_fields rs)) (dv_roots rs) dstate0 = Some st).
+Proof. intro rs. split; [exact (nn_detect_terminates rs) | exact (dv_detect_terminates rs)]. Qed.
+Print Assumptions C20_cycle_detectors_terminate.
+
+(* The edges of the non-null graph are exactly the fields of type T! whose T is an input object. *)
+Theorem C20_nonnull_edge_spec : forall rs n m,
+  In m (nn_succ rs n) <->
+  exists f, In f (input_fields_of rs n) /\ iv_type f = TNonNull (TNamed m) /\ is_input_object rs m = true.
+Proof. exact nn_succ_spec. Qed.
+Print Assumptions C20_nonnull_edge_spec.
+
+(* Every reported non-null cycle [top; ...; bottom] is a cycle of that graph:
+   bottom -> ... -> top -> bottom. *)
+Theorem C20_nonnull_cycles_sound : forall rs st,
+  nn_detect rs = Some st -> Forall (is_cycle (nn_succ rs)) (d_reports st).
+Proof. exact nn_detect_sound. Qed.
+Print Assumptions C20_nonnull_cycles_sound.
+
+(* If nothing is reported the graph has no cycle at all (every input object is a root). *)
+Theorem C20_nonnull_cycles_complete : forall rs st,
+  nn_detect rs = Some st -> d_reports st = [] -> forall n, ~ reach (nn_succ rs) n n.
+Proof. exact nn_detect_complete. Qed.
+Print Assumptions C20_nonnull_cycles_complete.
+
+Theorem C20_default_cycles_sound : forall rs st,
+  dv_detect rs = Some st -> Forall (is_cycle (dv_succ rs)) (d_reports st).
+Proof. exact dv_detect_sound. Qed.
+Print Assumptions C20_default_cycles_sound.
+
+Theorem C20_default_cycles_complete : forall rs st,
+  dv_detect rs = Some st -> d_reports st = [] -> forall nd, ~ reach (dv_succ rs) nd nd.
+Proof. exact dv_detect_complete. Qed.
+Print Assumptions C20_default_cycles_complete.
+
+(* ---- non-vacuity.  Names: 2 Query, 4 Int, 6 I, 8 A, 10 f, 12 x, 14 a *)
+Definition ex_int : N * tdef := (4, DScalar SInt).
+
+(* type Query { f(x: I = {a: 1}): Int }  input I { a: Int!  b: I } *)
+Definition ex_valid : raw_schema :=
+  mkSchema
+    [ex_int;
+     (2, DObject [mkField 10 (TNamed 4) false
+                    [mkInval 12 (TNamed 6) false (DLit (LObj [(14, LInt false 1)]))]] []);
+     (6, DInput false [mkInval 14 (TNonNull (TNamed 4)) false DNone;
+                       mkInval 16 (TNamed 6) false DNone])]
+    (Some 2) None None [].
+
+Example C20_example_valid : validate ex_valid = [] /\ ValidSchema ex_valid.
+Proof.
+  assert (H : validate ex_valid = []) by (vm_compute; reflexivity).
+  split; [exact H | apply validate_reflects; exact H].
+Qed.
+
+(* the schema of the known defect: type Query { f(x: Query = 1): Int } - one position error, the
+   default is not validated, no assert site *)
+Definition ex_defect : raw_schema :=
+  mkSchema
+    [ex_int;
+     (2, DObject [mkField 10 (TNamed 4) false
+                    [mkInval 12 (TNamed 2) false (DLit (LInt false 1))]] [])]
+    (Some 2) None None [].
+
+Example C20_example_defect : validate ex_defect = [KNotInputType; KDefaultNotValidated].
+Proof. vm_compute. reflexivity. Qed.
+
+(* input A { a: A! }  and  input A { a: A = {} } : one report each, each a genuine cycle *)
+Definition ex_cyc (d : dflt) (t : tref) : raw_schema :=
+  mkSchema [ex_int; (2, DObject [mkField 10 (TNamed 4) false []] []);
+            (8, DInput false [mkInval 14 t false d])] (Some 2) None None [].
+
+Example C20_example_cycles :
+  validate (ex_cyc DNone (TNonNull (TNamed 8))) = [KNonNullCycle]
+  /\ validate (ex_cyc (DLit (LObj [])) (TNamed 8)) = [KDefaultCycle]
+  /\ reach (nn_succ (ex_cyc DNone (TNonNull (TNamed 8)))) 8 8.
+Proof.
+  split; [vm_compute; reflexivity|]. split; [vm_compute; reflexivity|].
+  apply reach_one. vm_compute. left. reflexivity.
+Qed.
